@@ -282,7 +282,18 @@ class LRI(dict):
             self._init_ll()
 
     def copy(self):
-        return self.__class__(max_size=self.max_size, values=self)
+        # same items, dict order, eviction order and on_miss, read
+        # directly rather than through __getitem__ (which would count
+        # hits on self and reorder an LRU)
+        with self._lock:
+            ret = self.__class__(max_size=self.max_size, on_miss=self.on_miss)
+            for key, value in self.items():
+                dict.__setitem__(ret, key, value)
+            link = self._anchor[NEXT]
+            while link is not self._anchor:
+                ret._set_key_and_add_to_front_of_ll(link[KEY], link[VALUE])
+                link = link[NEXT]
+            return ret
 
     def setdefault(self, key, default=None):
         with self._lock:
